@@ -540,7 +540,9 @@ def r18_9(ctx):
             return _MP(*(args[0] if len(args) == 1 else args))
         return NotImplemented
     ext = {"np.arctan2": math.atan2, "math.atan2": math.atan2, "np.float64": float}
-    for centre, nn in (((3.0, -2.0), None), ((0.25, 0.5), 5), ((-1.0, 4.0), 4)):
+    # the last two centres lie between the sampled polyline and the chord joining the ends of the segment: there the
+    # sum of the folded chord angles and the fold of the end-to-end angle differ by a full turn
+    for centre, nn in (((3.0, -2.0), None), ((0.25, 0.5), 5), ((-1.0, 4.0), 4), ((0.58, 0.42), None), ((0.7, 0.45), 5)):
         n = nn or 3
         pts = [bez(k / (n - 1)) for k in range(n)]
         want = 0.0
